@@ -152,7 +152,10 @@ pub fn c10_cancel(cx: &mut Ctx) {
             continue;
         }
         let session = cx.pool_mode(&c.database, &c.user) == "session";
-        let end_of_client = if c.finished { h_us_of_finish(c) } else { u64::MAX / 4 };
+        // The pooler notices that a client is gone only when it next reads from it: while a
+        // statement of the client is still running on a server, the session is still the client's.
+        let last_exec_us = h.stmts.iter().filter(|e| e.rec.tags.iter().any(|t| t.c == c.id)).map(|e| e.us).max().unwrap_or(0);
+        let end_of_client = if c.finished { h_us_of_finish(c).max(last_exec_us) } else { u64::MAX / 4 };
         let conns_of = |txn: Option<u32>| -> Vec<usize> {
             let mut v: Vec<usize> = Vec::new();
             for (ci, bc) in h.backend_conns.iter().enumerate() {
@@ -163,38 +166,44 @@ pub fn c10_cancel(cx: &mut Ctx) {
             v
         };
         let mut out = Vec::new();
-        if session {
-            let first = c.steps.iter().find(|s| s.op == "send" || s.op == "copyin").map(|s| s.start_us);
-            if let Some(f) = first {
-                let cs = conns_of(None);
+        // Walk the program: a hold opens with the first request of a transaction (of the session, in
+        // session mode) and closes when the transaction ends idle (transaction mode), when the
+        // pooler takes the server away after idle_client_in_transaction_timeout (the client reads
+        // the error while it sits idle), or when the client is gone.
+        let idle_timeout_us = cx.param_u64("idle_timeout_ms", 0) * 1000;
+        let mut open: Option<(u64, Option<u32>)> = None; // (from_us, transaction number)
+        let mut close = |open: &mut Option<(u64, Option<u32>)>, to_us: u64, out: &mut Vec<(Option<usize>, u64, u64)>| {
+            if let Some((from, txn)) = open.take() {
+                let cs = conns_of(if session { None } else { txn });
                 if cs.is_empty() {
-                    out.push((None, f, end_of_client.saturating_add(slack_us)));
+                    out.push((None, from, to_us));
                 }
                 for ci in cs {
-                    out.push((Some(ci), f, end_of_client.saturating_add(slack_us)));
+                    out.push((Some(ci), from, to_us));
                 }
             }
-        } else {
-            let mut txns: Vec<u32> = c.steps.iter().filter(|s| s.txn > 0).map(|s| s.txn).collect();
-            txns.dedup();
-            for t in txns {
-                let ss: Vec<&StepRec> = c.steps.iter().filter(|s| s.txn == t && s.start_seq > 0).collect();
-                if ss.is_empty() {
-                    continue;
+        };
+        for s in c.steps.iter().filter(|s| s.start_seq > 0) {
+            match s.op.as_str() {
+                "send" | "copyin" => {
+                    if open.is_none() {
+                        open = Some((s.start_us, if s.txn > 0 { Some(s.txn) } else { None }));
+                    }
+                    if !session && matches!(s.outcome, StepOutcome::Ready(b'I')) {
+                        close(&mut open, s.done_us.saturating_add(slack_us), &mut out);
+                    }
                 }
-                let from = ss[0].start_us;
-                let last = ss[ss.len() - 1];
-                let clean_end = matches!(last.outcome, StepOutcome::Ready(b'I'));
-                let to = if clean_end { last.done_us.saturating_add(slack_us) } else { end_of_client.saturating_add(slack_us) };
-                let cs = conns_of(Some(t));
-                if cs.is_empty() {
-                    out.push((None, from, to));
+                "hold" => {
+                    let timed_out = s.msgs.iter().any(|m| m.ty == b'E' && proto::error_fields(&m.body).get(&'M').map(|x| x.contains("idle transaction timeout")).unwrap_or(false));
+                    if timed_out && idle_timeout_us > 0 {
+                        cx.probe("c10_server_taken_by_idle_timeout");
+                        close(&mut open, s.start_us.saturating_add(idle_timeout_us).saturating_add(slack_us), &mut out);
+                    }
                 }
-                for ci in cs {
-                    out.push((Some(ci), from, to));
-                }
+                _ => {}
             }
         }
+        close(&mut open, end_of_client.saturating_add(slack_us), &mut out);
         holds.insert(c.id, out);
     }
     // cancel steps
@@ -286,7 +295,8 @@ pub fn c10_cancel(cx: &mut Ctx) {
                     let cand = steps.iter().filter(|cs| cs.s.sent_seq < r.seq && !cs.used && cs.x.is_some()).last().unwrap();
                     let x = cand.x.unwrap();
                     let xr = &h.clients[&x];
-                    if xr.finished && h_us_of_finish(xr).saturating_add(slack_us) < cand.s.start_us {
+                    let x_last_exec = h.stmts.iter().filter(|e| e.rec.tags.iter().any(|t| t.c == x)).map(|e| e.us).max().unwrap_or(0);
+                    if xr.finished && h_us_of_finish(xr).max(x_last_exec).saturating_add(slack_us) < cand.s.start_us {
                         ("C10/cancel_forwarded_for_departed_client", format!("client {} (whose key the request carried) had left {} ms before the request", x, (cand.s.start_us - h_us_of_finish(xr)) / 1000))
                     } else if holds_anything(x, cand.s.start_us, r.us) {
                         ("C10/cancel_hit_other_session", format!("client {} was holding a different server session", x))
